@@ -435,9 +435,33 @@ func runBackup(e *engx.Engine, c Case) (vs []viol, outcome string, inconclusive 
 		if err != nil || len(raw) == 0 {
 			return nil, "setup: empty backup file", true
 		}
-		pos := map[string]int{"first": 0, "middle": len(raw) / 2, "last": len(raw) - 1}[c.Corrupt]
+		where, md5mode, _ := strings.Cut(c.Corrupt, "+")
+		pos := map[string]int{"first": 0, "middle": len(raw) / 2, "last": len(raw) - 1}[where]
 		raw[pos] ^= 0x01
 		_ = os.WriteFile(file, raw, 0o644)
+		if md5mode != "" {
+			// the damaged file under a manifest whose checksum entry for it is empty / missing / in
+			// another letter case: none of them is the file's checksum
+			mf := filepath.Join(dir, "manifest.json")
+			mb, err := os.ReadFile(mf)
+			var man map[string]any
+			if err != nil || json.Unmarshal(mb, &man) != nil {
+				return nil, "setup: manifest unreadable", true
+			}
+			for _, t := range man["tables"].([]any) {
+				tm := t.(map[string]any)
+				switch md5mode {
+				case "md5-empty":
+					tm["md5"] = ""
+				case "md5-absent":
+					delete(tm, "md5")
+				case "md5-uppercase":
+					tm["md5"] = strings.ToUpper(fmt.Sprint(tm["md5"]))
+				}
+			}
+			mb, _ = json.Marshal(man)
+			_ = os.WriteFile(mf, mb, 0o644)
+		}
 	}
 	rerr, timedOut := withDeadline(90*time.Second, b.Restore)
 	if timedOut {
@@ -449,7 +473,7 @@ func runBackup(e *engx.Engine, c Case) (vs []viol, outcome string, inconclusive 
 	}
 	if c.Corrupt != "" {
 		if rerr == nil {
-			vs = append(vs, viol{"backup/corrupted-file-not-refused", fmt.Sprintf("one bit flipped in the %s byte: Restore returned nil", c.Corrupt)})
+			vs = append(vs, viol{"backup/corrupted-file-not-refused/" + c.Corrupt, fmt.Sprintf("one bit flipped in the backup file (%s): Restore returned nil", c.Corrupt)})
 		}
 		if !fsmx.EqualKVs(got, current) {
 			vs = append(vs, viol{"backup/table-changed-by-refused-restore", fmt.Sprintf("table %s, before %s", kvsStr(got), kvsStr(current))})
@@ -586,7 +610,7 @@ func Run(r *evid.Run) {
 		maxN = 5
 		mems = []uint64{0, 600, 700, 800, 1000, 2000, 6 << 20}
 	}
-	r.Rule(fmt.Sprintf("(manager) contents = every sequence of 0..%d pairs with value sizes from %v (every order; plus one content whose keys are 1019, 1020, 1023, 1024, 1024 and 1 bytes long, sharing their first 1019 bytes, on every path) x MaxInMemLogSize in %v (settings under which dragonboat starves proposals are excluded by construction) x target {absent, pre-populated with other keys} x {directly, after a restore of another three-pair image into the same table that broke off with a transport error once its pairs had been read}: captured with the real SnapshotServer.Stream on a real engine, loaded with the real Manager.Restore/readIntoTable, read back with a linearizable full range: content must equal the captured content, leader index = declared index, shard id grows. (worker) the same contents through real gRPC -> real replication worker.recover() on follower engines with MaxInMemLogSize 0 and 6MiB. (backup) backup.Backup -> backup.Restore through real gRPC incl. a bit flip in the first/middle/last byte of the file (must be refused, table unchanged). Large values (64KiB, 2MiB) thorough only. Non-trivial: at least one pair; distinct = distinct (case, restored size) outcomes", maxN, classes, mems))
+	r.Rule(fmt.Sprintf("(manager) contents = every sequence of 0..%d pairs with value sizes from %v (every order; plus one content whose keys are 1019, 1020, 1023, 1024, 1024 and 1 bytes long, sharing their first 1019 bytes, on every path) x MaxInMemLogSize in %v (settings under which dragonboat starves proposals are excluded by construction) x target {absent, pre-populated with other keys} x {directly, after a restore of another three-pair image into the same table that broke off with a transport error once its pairs had been read}: captured with the real SnapshotServer.Stream on a real engine, loaded with the real Manager.Restore/readIntoTable, read back with a linearizable full range: content must equal the captured content, leader index = declared index, shard id grows. (worker) the same contents through real gRPC -> real replication worker.recover() on follower engines with MaxInMemLogSize 0 and 6MiB. (backup) backup.Backup -> backup.Restore through real gRPC incl. a bit flip in the first/middle/last byte of the file, also under a manifest whose checksum entry is empty, missing or upper-cased (must be refused, table unchanged). Large values (64KiB, 2MiB) thorough only. Non-trivial: at least one pair; distinct = distinct (case, restored size) outcomes", maxN, classes, mems))
 	eng, err := engx.Start(engx.Opts{})
 	if err != nil {
 		fmt.Println("INFRA: engine start failed:", err)
@@ -681,7 +705,7 @@ func Run(r *evid.Run) {
 	beng, err := engx.Start(engx.Opts{})
 	if err == nil {
 		for _, s := range [][]int{{}, {1}, {40, 300, 0}, {64 << 10, 1}} {
-			for _, cor := range []string{"", "first", "middle", "last"} {
+			for _, cor := range []string{"", "first", "middle", "last", "middle+md5-empty", "middle+md5-absent", "middle+md5-uppercase"} {
 				if cor != "" && len(s) == 0 {
 					continue
 				}
